@@ -128,8 +128,8 @@ theorem rowOf_length (k : Nat) (a : List Int) (i : Nat) (h : (i + 1) * k ≤ a.l
   have : (i + 1) * k = i * k + k := by rw [Nat.add_mul, Nat.one_mul]
   omega
 
-theorem effZero_unpacked (kern : Kern) (z : Option (List Int)) (i : Nat) :
-    effZero kern false z i = (z.map (·.getD i 0)).getD 0 := by
+theorem effZero_eq (z : Option (List Int)) (i : Nat) :
+    effZero z i = (z.map (·.getD i 0)).getD 0 := by
   unfold effZero; cases z <;> simp
 
 theorem getD_allIn (lo hi : Int) (h0 : lo ≤ 0 ∧ 0 ≤ hi) (b : List Int) (hb : AllIn lo hi b)
@@ -139,13 +139,13 @@ theorem getD_allIn (lo hi : Int) (h0 : lo ≤ 0 ∧ 0 ≤ hi) (b : List Int) (hb
   | none => simpa using h0
   | some v => simpa using hb v (List.mem_of_getElem? h)
 
-/-- **C17.T1c (partial)** Every output element the model computes for a SIMD kernel on a
-well-formed request equals `wrap32 (Σ_k (a_ik − za_i)(b_kj − zb_j) + c0_ij)` **provided** the
-kernel cannot saturate and no operand carrying zero points is prepacked.  The full statement
-(without the `hpre` guard) is false of model *and* code: see `c17_prepacked_zero_points_ignored`. -/
-theorem c17_gemm_entry_exact_partial (r : Request) (i j : Nat)
+/-- **C17.T1c** Every output element the model computes for a SIMD kernel that cannot saturate,
+on a well-formed request, equals `wrap32 (Σ_k (a_ik − za_i)(b_kj − zb_j) + c0_ij)` — whether or
+not A and/or B are prepacked (`r.preA`, `r.preB` are unconstrained).  Before the fix of
+`findings/C17.json` (`C17-prepacked-*-zero-points-ignored`) this needed the extra hypothesis
+"nothing is prepacked": see `c17_prepacked_zero_points_were_ignored`. -/
+theorem c17_gemm_entry_exact (r : Request) (i j : Nat)
     (hk : r.kern = .simd) (hsat : r.sat = false) (hkc : 0 < r.kc)
-    (hpre : r.preA = false ∧ r.preB = false)
     (hi : (i + 1) * r.k ≤ r.a.length) :
     entry r i j =
       wrap32 (dotZ ((r.za.map (·.getD i 0)).getD 0) ((r.zb.map (·.getD j 0)).getD 0)
@@ -154,14 +154,13 @@ theorem c17_gemm_entry_exact_partial (r : Request) (i j : Nat)
   have hlen : (rowOf r.k r.a i).length = (colOf r.n r.k r.b j).length := by
     rw [rowOf_length r.k r.a i hi, colOf_length]
   unfold entry
-  simp only [hk, hsat, hpre.1, hpre.2, effZero_unpacked]
+  simp only [hk, hsat, effZero_eq]
   rw [c17_simd_entry_exact r.kc hkc _ _ _ _ hlen]
   cases r.c0 <;> simp
 
 /-- Same statement for the saturating kernels under the documented reduced RHS range. -/
-theorem c17_gemm_entry_exact_saturating_partial (r : Request) (i j : Nat)
+theorem c17_gemm_entry_exact_saturating (r : Request) (i j : Nat)
     (hk : r.kern = .simd) (hkc : 0 < r.kc)
-    (hpre : r.preA = false ∧ r.preB = false)
     (hi : (i + 1) * r.k ≤ r.a.length)
     (ha : AllIn 0 255 r.a) (hb : AllIn (-64) 63 r.b) :
     entry r i j =
@@ -182,7 +181,7 @@ theorem c17_gemm_entry_exact_saturating_partial (r : Request) (i j : Nat)
       · exact getD_allIn (-64) 63 (by omega) b hb j
       · exact ih (b.drop r.n) (hb.drop _) x hx
   unfold entry
-  simp only [hk, hpre.1, hpre.2, effZero_unpacked]
+  simp only [hk, effZero_eq]
   cases hs : r.sat
   · rw [c17_simd_entry_exact r.kc hkc _ _ _ _ hlen]
     cases r.c0 <;> simp
@@ -196,7 +195,7 @@ def exampleRequest : Request :=
     a := [255, 0, 1, 254, 128, 0, 255, 127, 2, 200],
     b := [-128, 127, 0, -1, 1, 64, -65, 63, -64, 5] }
 
-/-- Non-vacuity: `exampleRequest` meets the hypotheses of `c17_gemm_entry_exact_partial`. -/
+/-- Non-vacuity: `exampleRequest` meets the hypotheses of `c17_gemm_entry_exact`. -/
 example : exampleRequest.kern = .simd ∧ exampleRequest.sat = false ∧ 0 < exampleRequest.kc ∧
     (1 + 1) * exampleRequest.k ≤ exampleRequest.a.length ∧
     gemm exampleRequest = [23171, -30804, -34051, 29081] := by decide
@@ -206,13 +205,15 @@ def prepackedRequest : Request :=
   { kern := .simd, sat := false, kc := 1024, preA := false, preB := true, m := 1, n := 1, k := 1,
     za := some [0], zb := some [47], c0 := none, a := [127], b := [0] }
 
-/-- **Finding (open, `findings/C17.json`)** The full statement is false for prepacked operands:
-`prepack_a`/`prepack_b` pack with `quant = None`, and the SIMD kernels read zero points only from
-the panel metadata, so zero points passed to `gemm` are silently ignored.  Concrete witness
-(reproduced on the real AVX2 and AVX-512 kernels by the harness): `a = [127]`, `b = [0]`,
-`zb = [47]`, B prepacked → the code returns `0`, the exact value is `−5969`. -/
-theorem c17_prepacked_zero_points_ignored :
-    entry prepackedRequest 0 0 = 0 ∧ dotZ 0 47 [127] [0] = -5969 := by decide
+/-- **Finding (fixed, `findings/C17.json`: `C17-prepacked-*-zero-points-ignored`)** Before the
+fix the SIMD kernels read zero points only from the panel metadata (`effZeroOld`), and
+`prepack_a`/`prepack_b` pack with `quant = None`, so zero points passed to `gemm` together with a
+prepacked operand were silently ignored.  Witness reproduced on the real AVX2/AVX-512 kernels of
+the unchanged tree: `a = [127]`, `b = [0]`, `zb = [47]`, B prepacked → `0`, exact value `−5969`.
+With the fixed code (`effZero`) the same request is exact. -/
+theorem c17_prepacked_zero_points_were_ignored :
+    dotZ 0 (effZeroOld .simd prepackedRequest.preB prepackedRequest.zb 0) [127] [0] = 0 ∧
+    dotZ 0 47 [127] [0] = -5969 ∧ entry prepackedRequest 0 0 = -5969 := by decide
 
 /-- **Finding (fixed, `findings/C17.json`)** before the fix every *full* panel stored the zero
 points of panel 0 (`zp[r]`), e.g. row 6 of an `MR = 6` kernel got the zero point of row 0. -/
